@@ -489,11 +489,11 @@ def authz_judge(c, dc, o, mode):
             if rows(ob["fullq.q%d" % qi].get("rows")) != exp:
                 bad.append("Query #%d = %s, specification says %s" % (qi, rows(ob["fullq.q%d" % qi].get("rows")), exp))
         if nb == 2:
-            if ob["swap.auth"].get("v") != vs[nb]:
+            if cls(ob["swap.auth"].get("v")) != vs[nb]:
                 bad.append("block order changes the outcome: %s vs %s" % (ob["swap.auth"].get("v"), vs[nb]))
     if mode == "C12":
         for nm in ("shuf", "twice"):
-            v1, v2 = ob[nm + ".auth"].get("v"), ob[nm + ".auth2"].get("v")
+            v1, v2 = cls(ob[nm + ".auth"].get("v")), cls(ob[nm + ".auth2"].get("v"))
             if v1 != vs[nb]:
                 bad.append("presentation '%s' gives %s, plain presentation gives %s" % (nm, v1, vs[nb]))
             if v2 != v1:
